@@ -140,7 +140,7 @@ def roundtrip_cases(draw, tier="quick"):
         return {"via": via, "spec": {"empty_adaptive": True, "d": d, "w": draw(st.sampled_from([0.5, 1.0, 0.1, 2.5])),
                                      "fill": draw(st.one_of(st.none(), st.floats(-20, 20, allow_nan=False))), "name": draw(st.sampled_from([None, "a"]))}}
     dtypes = hgen.ALL_DTYPES + (["float128"] if draw(st.integers(0, 15)) == 0 else [])
-    spec = draw(hgen.hist_spec(dims=(1, 1, 2, 2, 3, 4), dtypes=dtypes, max_bins=5, nan_missed=True))
+    spec = draw(hgen.hist_spec(dims=(1, 1, 2, 2, 3, 4), dtypes=dtypes, max_bins=5, nan_missed=True, near_err=True))
     d = len(spec["axes"])
     spec["class"] = draw(st.sampled_from(hgen.CLASSES_BY_DIM[d]))
     if d > 1:
